@@ -270,8 +270,8 @@ def gen_manual_layout(sp, L, W, float_rewards=False):
     gen, cr, board = mods()
     moves, loose, _ = _board(sp, L, W, None, None)
     rewards = [[(i + 2 * j) % 3 for j in range(W)] for i in range(L)]
-    if float_rewards:      # boards passed in by hand may carry float rewards
-        rewards = [[r + 0.5 for r in row] for row in rewards]
+    if float_rewards:      # boards passed in by hand may carry float rewards, and rows may be tuples
+        rewards = tuple(tuple(r + 0.5 for r in row) for row in rewards)
     pt, pr, pl = (sp.real(n, 0, 1, lo_open=True, hi_open=True) for n in ("p_tile", "p_robot", "p_light"))
     FakeFile.store, FakeFile.opened = {}, []
     if sp.mode != "native":
